@@ -83,6 +83,7 @@ def one(M, rec, rng, g, desc, pars, st):
         for compact in (0, 1, 2):
             more_out = rng.random() < 0.6
             ctx = {"desc": desc, "pars": pars, "sym_type": st, "compact": compact, "more_out": more_out, "opts": opts,
+                   "note": "declared symbolic model parameters may also be passed as keywords (see counters)",
                    "declared_parameters": list(sym.parameters), "parameter_values": pvals, "variant": vname}
             try:
                 Fn = num.compile(compact, more_out)
@@ -90,8 +91,11 @@ def one(M, rec, rng, g, desc, pars, st):
                 rec.count("compile_failed")
                 rec.seen("failed", repr(e)[:100])
                 continue
+            also_kw = (not more_out) and any(k_[0] == "#" for k_ in keys) and rng.random() < 0.6
+            if also_kw:
+                rec.count("compilations_with_declared_parameters_also_as_keywords")
             try:
-                Fs = sym.compile(compact, more_out)
+                Fs = sym.compile(compact, more_out, also_keywords=also_kw)
             except Exception as e:
                 kinds = sorted(set(k_[1] for k_ in keys if k_[0] == "#")) or ["element parameters"]
                 rec.violation(
@@ -159,6 +163,8 @@ def finish(M, rec, write=True):
         for st in ("SX", "MX"):
             for c in (0, 1, 2):
                 rec.gate(any(s.startswith(f"('{st}', {c},") for s in cf), f"{st}/compact={c} never evaluated")
+        rec.gate(rec.counters.get("compilations_with_declared_parameters_also_as_keywords", 0) > 0,
+                 "README-style call (declared parameter also passed as keyword) never exercised")
         rec.gate(rec.counters.get("symbolic_step_failed", 0) + rec.counters.get("compile_failed", 0) + rec.counters.get("numeric_step_failed", 0)
                  <= 0.02 * max(1, rec.counters.get("function_pairs_evaluated", 0)), "too many cases failed to compile (see C07)")
     return rec.finish(
